@@ -331,12 +331,11 @@ def classify(stage: str, case: dict, opts: dict, mprog: list[str] | None, mres: 
         return None
     if mprog and any(" forbreak " in ln for ln in mprog):
         return "C13-LOOP-BREAK"
-    if mprog and "A subgraph for a test do not have any output variable" in detail and dead_if_in_text(mprog):
+    if mprog and "A subgraph for a test do not have any output variable" in detail and (
+            dead_if_in_text(mprog) or dead_if_in_text(mprog, scoped=True)):
+        # scoped: since ce0fc89 the read set is per graph, so "nobody reads the result" is judged in the `if`'s own scope
+        # (a sibling scope may spell one of its own values the same)
         return "C13-DEAD-IF"
-    if mprog and "A subgraph for a test do not have any output variable" in detail and dead_if_in_text(mprog, scoped=True) \
-            and any(len(ks) > 1 for ks in GEN.scope_defs(case["proto"]).values()):
-        # `_names_read` is one flat set of ONNX names: a dead If whose result name is read in a sibling scope is kept
-        return "C13-READ-SCOPE"
     return None
 
 
@@ -1091,7 +1090,8 @@ def witnesses() -> list[tuple[str, dict, dict]]:
     m = GEN.sibling_witness()
     feeds = [{"c": np.array(b), "x": np.array(3.0, dtype=np.float32)} for b in (True, False)]
     out.append(("C13-INLINE-SCOPE", case_of_model(m, feeds, {"refusal": None, "flags": ["witness"]}), dict(base, inline_const=True)))
-    # C13-READ-SCOPE (open): a dead If whose result name is read in the sibling branch is not dropped
+    # C13-READ-SCOPE (fixed by ce0fc89; must-pass regression case): a dead If whose result name is read in the sibling
+    # branch is dropped
     m = GEN.read_scope_witness()
     feeds = [{"c": np.array(b), "x": X} for b in (True, False)]
     out.append(("C13-READ-SCOPE", case_of_model(m, feeds, {"refusal": None, "flags": ["witness"]}), dict(base)))
